@@ -25,6 +25,7 @@ type lossySub struct {
 	view        map[string]int32
 	known       map[string]bool
 	recvd       int
+	lastTime    map[string]time.Time // change time of the last event received per id
 }
 
 func (s *lossySub) apply(e *resource.CollectionChange) error {
@@ -40,6 +41,10 @@ func (s *lossySub) apply(e *resource.CollectionChange) error {
 		}
 	}
 	s.known[e.Id] = true
+	if s.lastTime == nil {
+		s.lastTime = map[string]time.Time{}
+	}
+	s.lastTime[e.Id] = e.ChangeTime
 	switch e.ChangeType {
 	case types.ChangeType_REMOVE:
 		delete(s.view, e.Id)
@@ -140,6 +145,7 @@ func TestLossySubscribersSideBySide(t *testing.T) {
 			seedsLeft[i] = len(store)
 		}
 		n := rapid.IntRange(1, 40).Draw(t, "steps")
+		storeTime := map[string]time.Time{} // the write time of the last write per id, where the caller chose it
 		next := int32(1)
 		var hist []string
 		lag := make([]int, nsubs) // writes since the subscriber last received
@@ -165,13 +171,17 @@ func TestLossySubscribersSideBySide(t *testing.T) {
 			if _, exists := store[id]; exists && rapid.IntRange(0, 2).Draw(t, "del") == 0 {
 				werr, returned = guarded(func() error { _, err := c.Delete(id); return err })
 				delete(store, id)
+				delete(storeTime, id)
 				hist = append(hist, "delete("+id+")")
 			} else {
 				val := fmsg(next)
 				wopts := []resource.WriteOption{resource.WithCreateIfAbsent()}
+				delete(storeTime, id)
 				if rapid.IntRange(0, 2).Draw(t, "writeTime") == 0 {
 					// the caller chooses the write time; it need not move forward
-					wopts = append(wopts, resource.WithWriteTime(time.Unix(int64(1000+rapid.IntRange(-500, 500).Draw(t, "at")), 0)))
+					at := time.Unix(int64(1000+rapid.IntRange(-500, 500).Draw(t, "at")), 0)
+					wopts = append(wopts, resource.WithWriteTime(at))
+					storeTime[id] = at
 				}
 				werr, returned = guarded(func() error { _, err := c.Update(id, val, wopts...); return err })
 				store[id] = next
@@ -222,6 +232,15 @@ func TestLossySubscribersSideBySide(t *testing.T) {
 			for id, w := range s.view {
 				if _, ok := store[id]; !ok {
 					t.Fatalf("%s: folded view still has %s=%v which the store removed\nhistory: %s", s.name, id, w, strings.Join(hist, " "))
+				}
+			}
+			// the most recent change is what the subscriber is left with - its time included
+			for id, at := range storeTime {
+				if _, ok := store[id]; !ok {
+					continue
+				}
+				if got, ok := s.lastTime[id]; ok && !got.Equal(at) {
+					t.Fatalf("%s: the last change it received for %q is stamped %v, the last write to it was made at %v\nhistory: %s", s.name, id, got.UTC(), at.UTC(), strings.Join(hist, " "))
 				}
 			}
 		}
